@@ -1265,3 +1265,148 @@ def overwritten_reads(body, loop_blocks, carried):
                     if before:
                         out.append((x, y, body.span_of(rb, rs_ if rs_ != "term" else None)))
     return out
+
+
+def apply_closure(facts, clo, args, g):
+    """the closure's return-value origin with captures and its own arguments substituted (one bottom-up pass: no name capture)"""
+    cp = closure_parts(clo)
+    if cp is None or cp[0] not in facts.bodies:
+        return None
+    cb = facts.bodies[cp[0]]
+    caps = [norm(c, g) for c in cp[1]]
+
+    def f(n):
+        if n[0] == "field" and n[1][0] == "param" and n[1][1] == 1 and str(n[2]).isdigit() and int(n[2]) < len(caps):
+            return caps[int(n[2])]
+        if n[0] == "param" and n[1] >= 2 and n[1] - 2 < len(args):
+            return args[n[1] - 2]
+        return None
+    return map_term(norm(cb.local_origin(0), g), f)
+
+
+def simplify_proj(t):
+    """field-of-aggregate and deref-of-value reductions after a substitution"""
+    def f(n):
+        if n[0] == "deref" and n[1][0] in ("agg", "int"):
+            return n[1]
+        if n[0] == "ref" and n[1][0] in ("agg", "int"):
+            return n[1]
+        if n[0] == "field" and n[1][0] == "agg" and str(n[2]).isdigit() and int(n[2]) < len(n[1][2]) and not n[1][1].startswith("closure"):
+            return n[1][2][int(n[2])]
+        return None
+    return map_term(t, f)
+
+
+class PipelineError(Exception):
+    pass
+
+
+def eval_pipeline(facts, term, g, source, env, cap=200):
+    """evaluate an iterator pipeline term (adaptors applied to `source`, a python iterable of item terms standing for the innermost
+    generator) -> python value (int / None / list).  Supported: take, skip, skip_while, take_while, filter, map, next, nth, last, count,
+    unwrap, unwrap_or, expect.  Anything else raises PipelineError (callers fail closed)."""
+    import itertools as it
+
+    def val(t):
+        t = simplify_proj(t)
+        v = eval_term_env(unov_term(fold_std_ops(t)), env)
+        if v is None:
+            raise PipelineError("cannot evaluate %s" % show(t, 1)[:60])
+        return v
+
+    def call(clo, item):
+        r = apply_closure(facts, clo, [item], g)
+        if r is None:
+            raise PipelineError("closure %s" % show(clo, 1)[:40])
+        return simplify_proj(r)
+
+    def truth(clo, item):
+        r = call(clo, item)
+        if r[0] == "binop" and r[1] in ("Eq", "Ne", "Lt", "Le", "Gt", "Ge"):
+            a, b = val(r[2]), val(r[3])
+            return {"Eq": a == b, "Ne": a != b, "Lt": a < b, "Le": a <= b, "Gt": a > b, "Ge": a >= b}[r[1]]
+        v = val(r)
+        return bool(v)
+
+    def go(t):
+        t = strip(t)
+        if t[0] == "src":
+            return iter(source)
+        if t[0] != "call":
+            raise PipelineError("not a call: %s" % show(t, 1)[:50])
+        nm = t[1].split("::")[-1]
+        a = t[2]
+        if nm == "take":
+            return it.islice(go(a[0]), max(0, val(a[1])))
+        if nm == "skip":
+            return it.islice(go(a[0]), max(0, val(a[1])), None)
+        if nm == "skip_while":
+            return it.dropwhile(lambda x: truth(a[1], x), go(a[0]))
+        if nm == "take_while":
+            return it.takewhile(lambda x: truth(a[1], x), go(a[0]))
+        if nm == "filter":
+            return (x for x in go(a[0]) if truth(a[1], x))
+        if nm == "map" and "Option" in t[1]:
+            r = go(a[0])
+            return ("some", call(a[1], r[1])) if isinstance(r, tuple) and r and r[0] == "some" else r
+        if nm == "map":
+            return (call(a[1], x) for x in go(a[0]))
+        if nm == "find":
+            for x in it.islice(go(a[0]), cap):
+                if truth(a[1], x):
+                    return ("some", x)
+            return ("none",)
+        if nm == "position":
+            for k_, x in enumerate(it.islice(go(a[0]), cap)):
+                if truth(a[1], x):
+                    return ("some", ("int", k_))
+            return ("none",)
+        if nm == "next":
+            for x in it.islice(go(a[0]), cap):
+                return ("some", x)
+            return ("none",)
+        if nm == "nth":
+            for x in it.islice(go(a[0]), val(a[1]), cap):
+                return ("some", x)
+            return ("none",)
+        if nm in ("unwrap", "expect"):
+            r = go(a[0])
+            if r == ("none",):
+                return ("panic",)
+            return r[1] if isinstance(r, tuple) and r[0] == "some" else r
+        if nm == "unwrap_or":
+            r = go(a[0])
+            return a[1] if r == ("none",) else (r[1] if isinstance(r, tuple) and r[0] == "some" else r)
+        raise PipelineError("adaptor %s is not modelled" % nm)
+    r = go(term)
+    if r == ("panic",):
+        return "panic"
+    if isinstance(r, tuple) and r and r[0] in ("some", "none"):
+        return r
+    return val(r)
+
+
+def reach_table_by_length(body, bb, g, lengths=(0, 1, 2, 5)):
+    """{L: is block bb reached for a word of length L} judged by the dominating facts that mention FreeWord::len / is_empty (all of one word:
+    callers use it in loops over one relator); None if no such fact dominates; a value None = a fact that cannot be evaluated"""
+    def mentions(y):
+        return isinstance(y, tuple) and y and y[0] == "call" and (y[1].endswith("FreeWord::len") or y[1].endswith("is_empty"))
+    atoms = [atom_norm(a, g) for a in body.facts_at(bb)]
+    rel_atoms = []
+    for a in atoms:
+        holder = ("agg", "x", tuple(x for x in a[1:] if isinstance(x, tuple)))
+        if contains(holder, mentions):
+            rel_atoms.append((a, holder))
+    if not rel_atoms:
+        return None
+    table = {}
+    for L in lengths:
+        vals = []
+        for a, holder in rel_atoms:
+            env = {}
+            for y in subterms(holder):
+                if mentions(y):
+                    env[y] = L if y[1].endswith("FreeWord::len") else (1 if L == 0 else 0)
+            vals.append(eval_atom_env(a, env))
+        table[L] = None if any(v is None for v in vals) else all(vals)
+    return table
